@@ -77,6 +77,15 @@ partial def oracleRows (mag : Rat) (initAcb : Rat) (c3 : Bool) (complete : Bool)
       (if x.aff.registered && (x.post.acb.isSome || x.gain.isSome) then
         [("C04", s!"row {i}: registered affiliate shows a cost base or gain")] else []) ++
       (match t.act with
+       | .sell _ _ _ _ _ (some _) =>
+         -- a declared superficial loss on a sale with no loss (a gain, or any sale of a registered
+         -- affiliate) is one of the reasons for rejection: such a row must not have been accepted
+         (match g0 with
+          | none => [("C04", s!"row {i}: a superficial loss declared on a registered affiliate's sale was accepted")]
+          | some g => if g > 1 / pow10 9 then
+              [("C04", s!"row {i}: a superficial loss declared on a sale at a gain of {ratToString g} was accepted")] else [])
+       | _ => []) ++
+      (match t.act with
        | .split post pre true =>
          let frac := x.post.shares - (Rat.floor x.post.shares : Int)
          if pre > post && frac > 1 / pow10 9 && 1 - frac > 1 / pow10 9 then
